@@ -44,9 +44,10 @@ LayoutOf(o) ==
           ELSE IF ~IndentOK(o.out) THEN "indentation is not one tab per open container"
           ELSE "ok"
 
-\* mode bintwice: the forest written as two datagrams of one writer
+\* modes bintwice and textquiet (TextWriterQuietFinish): the forest written as two datagrams of one writer;
+\* mode textimp: a text writer created with a shared symbol table to import
 Verdict(o) == LET f0 == Forests[o.idx].forest
-                  f == IF o.mode = "bintwice" THEN f0 \o f0 ELSE f0
+                  f == IF o.mode \in {"bintwice", "textquiet"} THEN f0 \o f0 ELSE f0
               IN [idx |-> o.idx, mode |-> o.mode, c01 |-> C01(o, f), c04 |-> C04(o, f),
                   diff |-> IF o.werr = "" /\ o.rerr = "" THEN FirstDiff(f, o.back) ELSE 0,
                   layout |-> LayoutOf(o)]
